@@ -89,7 +89,7 @@ impl Check for C15 {
         "C15"
     }
     fn rule(&self) -> String {
-        "1-5 atoms of every kind/polarity/CaseMatching/Normalization built through Atom::new (texts = substrings / subsequences of the haystack, case variants, or independent), haystacks from small palettes (ASCII and non-ASCII), all matcher configs; each atom is evaluated alone on a fresh matcher directly through the matcher functions and the results are composed by the stated rule (conjunction, negation, sum, index concatenation, prior content kept); Pattern::score / Pattern::indices / permuted atom order on a shared matcher / Atom::score / Pattern::clone_from onto a pattern with other settings at the same atom positions and Atom::clone_from / match_list on 0-84 items drawn from at most five distinct strings (many score ties; stable descending sort; a quarter of the lists contain items with CR LF inside) / MultiPattern over 1-3 columns compared, after 0-3 earlier reparse steps on the same object (columns set and cleared again), together with is_empty(). 6% of the cases use a line of 700-1900 chars with atoms that are long pieces of it (pattern totals above 65535); ten such cases are fixed templates. Non-trivial: >= 2 atoms with a negative one or two different case/normalization settings, on a haystack at least one atom matches. Distinct by case hash.".into()
+        "1-5 atoms of every kind/polarity/CaseMatching/Normalization built through Atom::new (now and then with an empty needle) (texts = substrings / subsequences of the haystack, case variants, or independent), haystacks from small palettes (ASCII and non-ASCII), all matcher configs; each atom is evaluated alone on a fresh matcher directly through the matcher functions and the results are composed by the stated rule (conjunction, negation, sum, index concatenation, prior content kept); Pattern::score / Pattern::indices / permuted atom order on a shared matcher / Atom::score / Pattern::clone_from onto a pattern with other settings at the same atom positions and Atom::clone_from / match_list (fed by a lazy iterator that itself calls match_list) on 0-84 items drawn from at most five distinct strings (many score ties; stable descending sort; a quarter of the lists contain items with CR LF inside) / MultiPattern over 1-3 columns compared, after 0-3 earlier reparse steps on the same object (columns set and cleared again), together with is_empty(). 6% of the cases use a line of 700-1900 chars with atoms that are long pieces of it (pattern totals above 65535); ten such cases are fixed templates. Non-trivial: >= 2 atoms with a negative one or two different case/normalization settings, on a haystack at least one atom matches. Distinct by case hash.".into()
     }
     fn assumptions(&self) -> Vec<String> {
         vec!["per-atom match decisions and scores are C01-C05's business; here only the composition is judged".into()]
@@ -157,6 +157,10 @@ impl Check for C15 {
                         if flip {
                             t = t.into_iter().map(|c| if c.is_lowercase() { c.to_uppercase().next().unwrap() } else { c.to_lowercase().next().unwrap() }).collect();
                         }
+                        // now and then an empty needle (only reachable through the public `atoms` field)
+                        if sels.len() == 4 && sels[3] % 16 == 0 {
+                            t.clear();
+                        }
                         AtomSpec { text: t.into_iter().collect(), kind, negative, case, norm }
                     })
                     .collect();
@@ -209,7 +213,9 @@ impl Check for C15 {
         let r = guarded(|| {
             let mut fails: Vec<(String, String)> = vec![];
             let mut labels: Vec<&'static str> = vec![];
-            let atoms: Vec<Atom> = case.atoms.iter().map(build_atom).filter(|a| !a.needle_text().is_empty()).collect();
+            // (atoms with an empty needle cannot come out of the parser, but `atoms` is a public field: the inner
+            // match of an empty needle always succeeds, so a negated one rejects everything)
+            let atoms: Vec<Atom> = case.atoms.iter().map(build_atom).collect();
             let mut buf = vec![];
             let hay = Utf32Str::new(&case.hay, &mut buf);
             let exp = expected(&atoms, hay, cfg);
@@ -256,7 +262,6 @@ impl Check for C15 {
                         t.negative = !t.negative;
                         build_atom(&t)
                     })
-                    .filter(|a| !a.needle_text().is_empty())
                     .collect();
                 old.clone_from(&pattern);
                 let got_c = old.score(hay, &mut shared);
@@ -314,12 +319,22 @@ impl Check for C15 {
             }
             want.sort_by_key(|&(_, s)| std::cmp::Reverse(s)); // stable
             let tagged: Vec<Tagged> = case.items.iter().enumerate().map(|(k, s)| Tagged(k, s.clone())).collect();
-            let got_l: Vec<(usize, u32)> = pattern.match_list(tagged, &mut shared).into_iter().map(|(t, s)| (t.0, s)).collect();
+            // the item iterator is lazy and itself uses match_list (a directory walk that filters its entries)
+            let mut inner_matcher = Matcher::new(cfg.to_config());
+            let inner_pattern = pattern.clone();
+            let lazy = tagged.into_iter().map(|t| {
+                let _ = inner_pattern.match_list(["nested", "call"], &mut inner_matcher);
+                if let Some(a) = inner_pattern.atoms.first() {
+                    let _ = a.match_list(["nested"], &mut inner_matcher);
+                }
+                t
+            });
+            let got_l: Vec<(usize, u32)> = pattern.match_list(lazy, &mut shared).into_iter().map(|(t, s)| (t.0, s)).collect();
             let want_l: Vec<(usize, u32)> = if atoms.is_empty() { case.items.iter().enumerate().map(|(k, _)| (k, 0)).collect() } else { want };
             if got_l != want_l {
                 fails.push(("match-list".into(), format!("match_list over {:?} = {got_l:?} (item index, score), expected {want_l:?}; {ctx}", case.items)));
             }
-            if let Some(a) = atoms.first() {
+            if let Some(a) = atoms.first().filter(|a| !a.needle_text().is_empty()) {
                 let mut w: Vec<(usize, u16)> = vec![];
                 for (k, it) in case.items.iter().enumerate() {
                     let mut b = vec![];
